@@ -1,6 +1,7 @@
 package props
 
 import (
+	"bytes"
 	"fmt"
 
 	"github.com/gregoryv/mq"
@@ -94,8 +95,63 @@ func snapshot(p mq.Packet) (string, uint64) {
 	return drv.Observe(p).Canon(), drv.DeepHash(p)
 }
 
+// c14LongHistory: a few packets are decoded and KEPT, then the process goes on
+// decoding for a while - ten thousand small frames with strings of every short
+// length - and the kept packets are looked at again. An allocator the decoder
+// runs for itself (a block it carves strings from, a ring of buffers) must not
+// come round to memory that a live packet still uses.
+func c14LongHistory(c *sim.Ctx) *sim.Violation {
+	t := c.T
+	type kept struct {
+		p     mq.Packet
+		canon string
+		frame []byte
+	}
+	var keep []kept
+	cfg := specCfg(c)
+	cfg.NoHuge = true
+	for i := 0; i < 8; i++ {
+		f, _ := ref.Encode(gen.Packet(t, cfg))
+		if o := ReadOne(link.NewReader(c.Muted(), f, link.Mode{})); o.Kind == "packet" {
+			keep = append(keep, kept{o.P, o.Canon, f})
+		}
+	}
+	check := func(after int) *sim.Violation {
+		for i, k := range keep {
+			if got := drv.Observe(k.p).Canon(); got != k.canon {
+				f, wv, gv := ref.FirstDiff(k.canon, got)
+				return sim.V(fmt.Sprintf("C14/%s/kept-packet-changed-while-others-were-decoded/%s", typeName(drv.TypeOf(k.p)), f),
+					"packet %d (decoded from %s and kept) changed after %d further decodes of unrelated frames: accessor %s was %q, is %q", i, hexs(k.frame), after, f, wv, gv)
+			}
+		}
+		return nil
+	}
+	n := 0
+	for round := 0; round < 40; round++ {
+		for L := 1; L <= 64; L += 1 + round%3 {
+			topic := bytes.Repeat([]byte{byte('a' + (L+round)%26)}, L)
+			key := bytes.Repeat([]byte{byte('k' + round%8)}, 1+(L*7+round)%64)
+			frame, _ := ref.Encode(&ref.AP{Type: ref.Publish, Topic: topic, Payload: []byte{byte(L)},
+				Props: []ref.Prop{{ID: 0x26, K: key, V: []byte("v")}, {ID: 0x03, B: topic[:1+L/2]}}})
+			for rep := 0; rep < 4; rep++ {
+				mq.ReadPacket(bytes.NewReader(frame))
+				n++
+			}
+		}
+		if v := check(n); v != nil {
+			return v
+		}
+	}
+	c.CountN("long-history.decodes-between-looks", int64(n))
+	c.DistinctStr("long-history")
+	return nil
+}
+
 func runC14(c *sim.Ctx) *sim.Violation {
 	t := c.T
+	if c.Run%200 == 3 {
+		return c14LongHistory(c)
+	}
 	cfg := specCfg(c)
 	cfg.NoHuge = true
 	// two strings with the same 32-bit hash, for this run: they turn up as
